@@ -399,8 +399,23 @@ impl Check for C07 {
     fn strategy(_tier: Tier) -> BoxedStrategy<Case> {
         let c = cfg();
         let rnd = c.quads(true, true, 10);
+        // "profile family": blank nodes described only by subsets of three ground properties, so that
+        // many nodes look alike; a split or merge then changes the *number* of nodes of each colour
+        // without creating a new colour
+        let profiles = prop::collection::vec(1u8..8, 3..=8).prop_map(|subsets| {
+            let mut out = vec![];
+            for (i, m) in subsets.iter().enumerate() {
+                for k in 0..3 {
+                    if m & (1 << k) != 0 {
+                        out.push(MQ::new(MT::bn(format!("n{i}")), MT::iri(format!("http://x/prop{k}")), MT::string(format!("v{k}")), None));
+                    }
+                }
+            }
+            out
+        });
         let quads = prop_oneof![
             3 => rnd.clone(),
+            2 => profiles,
             2 => shaped(),
             3 => (shaped(), c.quads(true, true, 5)).prop_map(|(mut a, b)| {
                 a.extend(b);
